@@ -207,7 +207,8 @@ def checkRestored (what : String) (vt : VT) (m0 : VModes) : List String :=
 /-- Read-backs against the values last set. -/
 def checkGetctl (ctl : List String) (lg : Ghost) : List String :=
   match ctl with
-  | [alt, vis, mouse, blink, shape, keypad, _, _, _, _, _] =>
+  | [alt, vis, mouse, blink, shape, keypad, _, _, _, _, rgb8] =>
+    clause (lg.rgb8.isSome ∧ rgb8 ≠ showOpt lg.rgb8) s!"getctl xterm.cap_rgb8 reads {rgb8}, last set {showOpt lg.rgb8}" ++
     clause (alt ≠ toString lg.alt) s!"getctl altscreen reads {alt}, last set {lg.alt}" ++
     clause (vis ≠ toString lg.vis) s!"getctl cursorvis reads {vis}, last set {lg.vis}" ++
     clause (mouse ≠ toString lg.mouse) s!"getctl mouse reads {mouse}, last set {lg.mouse}" ++
